@@ -293,10 +293,19 @@ def build_and_call(ctx, case, r, params_by_strategy, X, call_kwargs=None, want_c
         nograd = torch.no_grad()
         ctx.label("train_call_under_no_grad_after_change")
     obs = {}
+    if case.get("trace"):
+        # under trace_mode q(f) is a dense-tensor MultivariateNormal, which torch factorises at construction: a numerically singular
+        # covariance (duplicate inputs, a point-mass q(u) at an inducing point) cannot be represented that way - counted, not judged
+        pass
     with ctx.observing("forward", reject=reject, reject_match=reject_match):
         torch.manual_seed(case.get("torch_seed", 0))
         with settings_cm, S.trace_mode(bool(case.get("trace"))), nograd:
-            out = model(X, **call_kwargs)
+            try:
+                out = model(X, **call_kwargs)
+            except torch.linalg.LinAlgError as e:
+                if case.get("trace") and "cholesky" in str(e):
+                    raise Discard("trace_mode: numerically singular dense covariance cannot be wrapped in a dense MultivariateNormal") from None
+                raise
             obs["mean"] = out.mean
             obs["variance"] = out.variance
             if want_cov:
